@@ -5,7 +5,8 @@
    The model (LoopDefs) is that of the REPAIRED library (fixes/C17-*.patch); the pinned
    behaviour (LoopAsIs, and io_mask_bug = true) is refuted by the five witnesses below, each
    of which was replayed on the unchanged C (corpus/C17).  All theorems quantify over every
-   callback environment [env] and every script (registrations, cancellations, clock advances,
+   callback environment ([env]: what a callback does when fired; [uenv]: what it registers when
+   it is notified of its cancellation) and every script (registrations, cancellations, clock advances,
    NOHANG and sleeping iterations). *)
 From Coq Require Import ZArith List.
 From Tickit Require Import LoopDefs LoopSpec LoopAsIs LoopProofs LoopRefine LoopOrder.
@@ -21,43 +22,43 @@ Local Open Scope Z_scope.
    destruction notifies every remaining asker once).  The identity-snapshot formulation of
    the same specification (nothing is ever detached) is what the oracle runs; the oracle also
    demands that the two formulations agree on every case. *)
-Theorem C17_refines : forall env ops, run false env ops = qspec_run env ops.
+Theorem C17_refines : forall env uenv ops, run false env uenv ops = qspec_run env uenv ops.
 Proof. exact refines. Qed.
 Print Assumptions C17_refines.
 
 (* in a whole history no watch is invoked (FIRE) more than once *)
-Theorem C17_at_most_once : forall env ops id, (fires id (run false env ops) <= 1)%nat.
+Theorem C17_at_most_once : forall env uenv ops id, (fires id (run false env uenv ops) <= 1)%nat.
 Proof. exact at_most_once. Qed.
 Print Assumptions C17_at_most_once.
 
 (* the timer callbacks an iteration invokes are, oldest first, the (deadline, registration
    number) keys of a list that is strictly increasing in that key: deadline order, equal
    deadlines in registration order *)
-Theorem C17_order : forall env ops sleep dt,
+Theorem C17_order : forall env uenv ops sleep dt,
   exists fired nw,
-    log (tick false env sleep dt (run_ops false env ops)) = nw ++ log (run_ops false env ops) /\
+    log (tick false env uenv sleep dt (run_ops false env uenv ops)) = nw ++ log (run_ops false env uenv ops) /\
     map okey (filter is_tfire nw) = rev (map wkey fired) /\ ksorted fired.
 Proof. exact iteration_order. Qed.
 Print Assumptions C17_order.
 
 (* a timer callback is never invoked before its deadline *)
-Theorem C17_never_early : forall bug env ops e,
-  In (OEv e) (run bug env ops) -> e_kind e = KTimer -> Z.testbit (e_flags e) 0 = true -> e_x e <= e_now e.
+Theorem C17_never_early : forall bug env uenv ops e,
+  In (OEv e) (run bug env uenv ops) -> e_kind e = KTimer -> Z.testbit (e_flags e) 0 = true -> e_x e <= e_now e.
 Proof. exact never_early. Qed.
 Print Assumptions C17_never_early.
 
 (* whatever an iteration invokes was registered before the iteration began: a watch registered
    from inside a callback -- whatever its deadline -- waits for a later iteration *)
-Theorem C17_later_iteration : forall bug env ops sleep dt,
-  exists nw, log (tick bug env sleep dt (run_ops bug env ops)) = nw ++ log (run_ops bug env ops) /\
-             forall e, In (OEv e) nw -> Z.testbit (e_flags e) 0 = true -> e_id e < next_id (run_ops bug env ops).
+Theorem C17_later_iteration : forall bug env uenv ops sleep dt,
+  exists nw, log (tick bug env uenv sleep dt (run_ops bug env uenv ops)) = nw ++ log (run_ops bug env uenv ops) /\
+             forall e, In (OEv e) nw -> Z.testbit (e_flags e) 0 = true -> e_id e < next_id (run_ops bug env uenv ops).
 Proof. exact later_iteration. Qed.
 Print Assumptions C17_later_iteration.
 
 (* between iterations nothing is left in the running queues (every due timer and every deferred
    callback of the snapshot has run or has been cancelled) and the structural invariant holds *)
-Theorem C17_iteration_completes : forall bug env ops,
-  Quiet (run_ops bug env ops) /\ Below (run_ops bug env ops).
+Theorem C17_iteration_completes : forall bug env uenv ops,
+  Quiet (run_ops bug env uenv ops) /\ Below (run_ops bug env uenv ops).
 Proof. exact reach. Qed.
 Print Assumptions C17_iteration_completes.
 
@@ -76,33 +77,35 @@ Print Assumptions C17_refuted_use_after_free.
 
 Theorem C17_refuted_dropped_timer :
   a_run true w22b_env 100 w22b_ops = Some [OPoll 0; OEv (mkE 0 KTimer 3 1 0 0); OPoll 0] /\
-  spec_run w22b_env w22b_ops = [OPoll 0; OEv (mkE 0 KTimer 3 1 0 0); OPoll 0; OEv (mkE 1 KTimer 3 2 0 (-10))].
+  spec_run w22b_env no_uenv w22b_ops = [OPoll 0; OEv (mkE 0 KTimer 3 1 0 0); OPoll 0; OEv (mkE 1 KTimer 3 2 0 (-10))].
 Proof. exact pinned_drops_timer. Qed.
 Print Assumptions C17_refuted_dropped_timer.
 
 Theorem C17_refuted_same_iteration :
   a_run true w22c_env 100 w22b_ops = Some [OPoll 0; OEv (mkE 0 KTimer 3 1 0 0); OEv (mkE 1 KTimer 3 1 0 0); OPoll 0] /\
-  spec_run w22c_env w22b_ops = [OPoll 0; OEv (mkE 0 KTimer 3 1 0 0); OPoll 0; OEv (mkE 1 KTimer 3 2 0 0)].
+  spec_run w22c_env no_uenv w22b_ops = [OPoll 0; OEv (mkE 0 KTimer 3 1 0 0); OPoll 0; OEv (mkE 1 KTimer 3 2 0 0)].
 Proof. exact pinned_same_iteration. Qed.
 Print Assumptions C17_refuted_same_iteration.
 
 Theorem C17_refuted_uncancellable_later :
   a_run true w22d_env 100 w22d_ops = Some [OPoll 0; OEv (mkE 0 KTimer 3 1 0 0); OEv (mkE 1 KLater 3 1 0 0); OPoll 0] /\
-  spec_run w22d_env w22d_ops = [OPoll 0; OEv (mkE 0 KTimer 3 1 0 0); OEv (mkE 1 KLater 2 1 0 0); OPoll 0].
+  spec_run w22d_env no_uenv w22d_ops = [OPoll 0; OEv (mkE 0 KTimer 3 1 0 0); OEv (mkE 1 KLater 2 1 0 0); OPoll 0].
 Proof. exact pinned_uncancellable_later. Qed.
 Print Assumptions C17_refuted_uncancellable_later.
 
 Theorem C17_refuted_io_destroy_flag :
-  run true (fun _ => []) w23_ops = [] /\
-  spec_run (fun _ => []) w23_ops = [OEv (mkE 0 KIo 6 (-1) 0 0)] /\
-  run false (fun _ => []) w23_ops = [OEv (mkE 0 KIo 6 (-1) 0 0)].
+  run true (fun _ => []) no_uenv w23_ops = [] /\
+  spec_run (fun _ => []) no_uenv w23_ops = [OEv (mkE 0 KIo 6 (-1) 0 0)] /\
+  run false (fun _ => []) no_uenv w23_ops = [OEv (mkE 0 KIo 6 (-1) 0 0)].
 Proof. exact pinned_io_no_destroy. Qed.
 Print Assumptions C17_refuted_io_destroy_flag.
 
 (* non-vacuity: on the five witness scripts the repaired model does what the specification says *)
 Example C17_nonvacuous :
-  run false w22a_env w22a_ops = spec_run w22a_env w22a_ops /\
-  run false w22b_env w22b_ops = spec_run w22b_env w22b_ops /\
-  run false w22c_env w22b_ops = spec_run w22c_env w22b_ops /\
-  run false w22d_env w22d_ops = spec_run w22d_env w22d_ops.
+  run false (fun _ => []) wub_uenv wub_ops =
+    [OEv (mkE 0 KTimer 2 0 0 2000); OPoll 0; OEv (mkE 1 KTimer 3 1 0 (-500))] /\
+  run false w22a_env no_uenv w22a_ops = spec_run w22a_env no_uenv w22a_ops /\
+  run false w22b_env no_uenv w22b_ops = spec_run w22b_env no_uenv w22b_ops /\
+  run false w22c_env no_uenv w22b_ops = spec_run w22c_env no_uenv w22b_ops /\
+  run false w22d_env no_uenv w22d_ops = spec_run w22d_env no_uenv w22d_ops.
 Proof. exact fixed_on_witnesses. Qed.
